@@ -30,6 +30,13 @@ func c06Rules(p *core.Prog, r *core.Run) {
 	if !m.ok(r, "C06.model") {
 		return
 	}
+	c06State(p, r, m, "C06")
+}
+
+// c06State holds the rules on the inspection state machine; pre is the
+// property prefix under which they are reported (C06, and C01 for the part
+// a HelloRetryRequest handshake depends on).
+func c06State(p *core.Prog, r *core.Run, m *echModel, pre string) {
 	r.Analysed(p.FuncName(m.read), p.FuncName(m.write), p.FuncName(m.inspect), p.FuncName(m.handle), p.FuncName(m.process))
 	pkg := p.PkgFuncs(Ech)
 	retryCount := m.fConn["retryCount"]
@@ -41,7 +48,7 @@ func c06Rules(p *core.Prog, r *core.Run) {
 			adds = append(adds, s)
 		}
 	}
-	r.Check("C06.M1", "retryCount:writers", len(adds) == 1, p.Pos(m.inspect.Pos()), "exactly one site modifies the retry counter (found %d)", len(adds))
+	r.Check(pre+".M1", "retryCount:writers", len(adds) == 1, p.Pos(m.inspect.Pos()), "exactly one site modifies the retry counter (found %d)", len(adds))
 	for i, s := range adds {
 		fs := p.Facts(s.Block())
 		rec22 := core.HasFact(fs, "==", `p1\[0\]`, "22")
@@ -67,11 +74,11 @@ func c06Rules(p *core.Prog, r *core.Run) {
 			}
 		}
 		one := s.X.Name == "(*sync/atomic.Int32).Add" && len(s.X.Args) == 2 && s.X.Args[1].Name == "1"
-		r.Check("C06.M1", fmt.Sprintf("retryCount:add#%d", i), core.Root(s.Fn) == m.inspect && rec22 && msg2 && hrr && one, p.InstrPos(s.Instr),
+		r.Check(pre+".M1", fmt.Sprintf("retryCount:add#%d", i), core.Root(s.Fn) == m.inspect && rec22 && msg2 && hrr && one, p.InstrPos(s.Instr),
 			"retryCount.Add(1) (%v) in the write inspector (%v) under record type 22 (%v), message type 2 (%v) and IsHelloRetryRequest() of the ServerHello parsed from this record (%v)", one, core.Root(s.Fn) == m.inspect, rec22, msg2, hrr)
 	}
 	for i, st := range fieldStores(p, pkg, retryCount) {
-		r.Check("C06.M1", fmt.Sprintf("retryCount:store#%d", i), core.Root(st.Parent()) == m.newConn, p.InstrPos(st), "the counter object is installed only by NewConn")
+		r.Check(pre+".M1", fmt.Sprintf("retryCount:store#%d", i), core.Root(st.Parent()) == m.newConn, p.InstrPos(st), "the counter object is installed only by NewConn")
 	}
 	var inspCalls []site
 	for _, s := range allCalls(p, pkg) {
@@ -85,9 +92,9 @@ func c06Rules(p *core.Prog, r *core.Run) {
 		a := inspCalls[0].X.Args[1]
 		okInsp = a.Op == "slice" && a.Args[0].Op == "field" && a.Args[0].Obj == m.fConn["writeBuf"] && a.Args[1].Name == "_"
 	}
-	r.Check("C06.M1", "inspector:caller", okInsp, p.Pos(m.inspect.Pos()), "the write inspector is called from exactly one place, Write's record loop, with the complete record writeBuf[:sz]")
-	c06HRR(p, r)
-	r.Floor("C06.M1", 5)
+	r.Check(pre+".M1", "inspector:caller", okInsp, p.Pos(m.inspect.Pos()), "the write inspector is called from exactly one place, Write's record loop, with the complete record writeBuf[:sz]")
+	c06HRR(p, r, pre+".M1")
+	r.Floor(pre+".M1", 5)
 
 	// --- M2
 	var handleCalls []site
@@ -102,7 +109,7 @@ func c06Rules(p *core.Prog, r *core.Run) {
 		key := fmt.Sprintf("handle:call#%d", i)
 		switch {
 		case mode.Op == "const" && mode.Name == "false":
-			r.Check("C06.M2", key, core.Root(s.Fn) == m.newConn, p.InstrPos(s.Instr), "first-hello mode is used by NewConn only")
+			r.Check(pre+".M2", key, core.Root(s.Fn) == m.newConn, p.InstrPos(s.Instr), "first-hello mode is used by NewConn only")
 		case mode.Op == "const" && mode.Name == "true":
 			nRetry++
 			fs := p.Facts(s.Block())
@@ -123,15 +130,15 @@ func c06Rules(p *core.Prog, r *core.Run) {
 					}
 				}
 			}
-			r.Check("C06.M2", key, core.Root(s.Fn) == m.read && noErr && t22 && m1 && cnt && sameRec && latched, p.InstrPos(s.Instr),
+			r.Check(pre+".M2", key, core.Root(s.Fn) == m.read && noErr && t22 && m1 && cnt && sameRec && latched, p.InstrPos(s.Instr),
 				"retry mode is entered in Read (%v) with the record just read (%v) only under: no read error (%v), handshake record (%v), ClientHello (%v), exactly one HelloRetryRequest seen (%v); readPassthrough is latched in the same branch so at most one retry is processed (%v)",
 				core.Root(s.Fn) == m.read, sameRec, noErr, t22, m1, cnt, latched)
 		default:
-			r.Check("C06.M2", key, false, p.InstrPos(s.Instr), "the retry mode of the hello handler is not a constant here: %s", short(mode))
+			r.Check(pre+".M2", key, false, p.InstrPos(s.Instr), "the retry mode of the hello handler is not a constant here: %s", short(mode))
 		}
 	}
-	r.Check("C06.M2", "handle:retry-sites", nRetry == 1, p.Pos(m.handle.Pos()), "exactly one retry-mode call site (found %d)", nRetry)
-	r.Floor("C06.M2", 3)
+	r.Check(pre+".M2", "handle:retry-sites", nRetry == 1, p.Pos(m.handle.Pos()), "exactly one retry-mode call site (found %d)", nRetry)
+	r.Floor(pre+".M2", 3)
 
 	// --- M3: census of flag stores
 	for _, flag := range []string{"readPassthrough", "writePassthrough"} {
@@ -142,12 +149,12 @@ func c06Rules(p *core.Prog, r *core.Run) {
 			switch core.Root(st.Parent()) {
 			case m.newConn:
 				ok := v.Op == "bin" && v.Name == "==" && v.Args[1].Name == "nil" && v.Args[0].Op == "field" && v.Args[0].Obj == m.fConn["inner"]
-				r.Check("C06.M3", key, ok, p.InstrPos(st), "NewConn: %s = (inner == nil): %s", flag, short(v))
+				r.Check(pre+".M3", key, ok, p.InstrPos(st), "NewConn: %s = (inner == nil): %s", flag, short(v))
 			case m.read:
 				isTrue := v.Op == "const" && v.Name == "true"
 				app := core.HasFact(fs, "==", `ech\.readRecord\(p0\.Conn\)#0\[0\]`, "23") && core.HasFact(fs, "==", `ech\.readRecord\(p0\.Conn\)#1`, "nil")
 				retry := core.HasFact(fs, "==", `\(\*sync/atomic\.Int32\)\.Load\(p0\.retryCount\)`, "1")
-				r.Check("C06.M3", key, flag == "readPassthrough" && isTrue && (app || retry), p.InstrPos(st), "Read stops inspecting only on an application_data record (type == 23: %v) or when it processes the retried hello (%v)", app, retry)
+				r.Check(pre+".M3", key, flag == "readPassthrough" && isTrue && (app || retry), p.InstrPos(st), "Read stops inspecting only on an application_data record (type == 23: %v) or when it processes the retried hello (%v)", app, retry)
 			case m.inspect:
 				isTrue := v.Op == "const" && v.Name == "true"
 				app := core.HasFact(fs, "==", `p1\[0\]`, "23")
@@ -157,13 +164,13 @@ func c06Rules(p *core.Prog, r *core.Run) {
 						hrr = true
 					}
 				}
-				r.Check("C06.M3", key, flag == "writePassthrough" && isTrue && (app || hrr), p.InstrPos(st), "the write side stops inspecting only on an application_data record (%v) or a HelloRetryRequest (%v)", app, hrr)
+				r.Check(pre+".M3", key, flag == "writePassthrough" && isTrue && (app || hrr), p.InstrPos(st), "the write side stops inspecting only on an application_data record (%v) or a HelloRetryRequest (%v)", app, hrr)
 			default:
-				r.Check("C06.M3", key, false, p.InstrPos(st), "unexpected writer of %s", flag)
+				r.Check(pre+".M3", key, false, p.InstrPos(st), "unexpected writer of %s", flag)
 			}
 		}
 	}
-	r.Floor("C06.M3", 6)
+	r.Floor(pre+".M3", 6)
 
 	// --- M4: processor under isRetry
 	isRetry := boolAssume("isRetry", true, func(e *core.Expr) bool { return e.Val == ssa.Value(m.retryP) }).asContext()
@@ -190,30 +197,30 @@ func c06Rules(p *core.Prog, r *core.Run) {
 			return e.Op == "field" && e.Obj == m.fCH["echExt"] && e.Args[0].Op == "field" && e.Args[0].Obj == m.fConn["outer"]
 		}
 	}
-	abortUnder(p, r, "C06.M4", "process:retry-without-ech", m.process, []assumption{isRetry,
+	abortUnder(p, r, pre+".M4", "process:retry-without-ech", m.process, []assumption{isRetry,
 		cmpAssume("h.echExt == nil", "==", func(e *core.Expr) bool {
 			return e.Op == "field" && e.Obj == m.fCH["echExt"] && e.Args[0].Val == ssa.Value(m.helloP)
 		}, isConstName("nil"))}, "ech.ErrMissingExtension", procOK)
-	abortUnder(p, r, "C06.M4", "process:retry-config-id", m.process, []assumption{isRetry,
+	abortUnder(p, r, pre+".M4", "process:retry-config-id", m.process, []assumption{isRetry,
 		cmpAssume("c.outer.echExt.ConfigID != h.echExt.ConfigID", "!=", storedExt("ConfigID"), helloExt("ConfigID"))}, "ech.ErrIllegalParameter", procOK)
-	abortUnder(p, r, "C06.M4", "process:retry-cipher-suite", m.process, []assumption{isRetry,
+	abortUnder(p, r, pre+".M4", "process:retry-cipher-suite", m.process, []assumption{isRetry,
 		cmpAssume("c.outer.echExt.CipherSuite != h.echExt.CipherSuite", "!=", storedExt("CipherSuite"), helloExt("CipherSuite"))}, "ech.ErrIllegalParameter", procOK)
-	abortUnder(p, r, "C06.M4", "process:retry-enc", m.process, []assumption{isRetry,
+	abortUnder(p, r, pre+".M4", "process:retry-enc", m.process, []assumption{isRetry,
 		cmpAssume("len(h.echExt.Enc) > 0", ">", func(e *core.Expr) bool { return e.Op == "call" && e.Name == "len" && helloExt("Enc")(e.Args[0]) }, isConstName("0"))}, "ech.ErrIllegalParameter", procOK)
-	abortUnder(p, r, "C06.M4", "process:retry-open-failed", m.process, []assumption{isRetry,
+	abortUnder(p, r, pre+".M4", "process:retry-open-failed", m.process, []assumption{isRetry,
 		cmpAssume("decrypted bytes == nil", "==", func(e *core.Expr) bool {
 			a, ok := p.IsCellLoad(e.Val)
 			return ok && a == m.innerCell
 		}, isConstName("nil"))}, "ech.ErrDecryptError", procOK)
 	view := assumeParam(m.process, m.retryP, true)
 	for i, s := range m.setup {
-		r.Check("C06.M4", fmt.Sprintf("process:no-setup-on-retry#%d", i), !view.Live(s.Block()), p.InstrPos(s.Instr), "no new HPKE context is set up for a retried hello (the stored context, hence the next sequence number, is used)")
+		r.Check(pre+".M4", fmt.Sprintf("process:no-setup-on-retry#%d", i), !view.Live(s.Block()), p.InstrPos(s.Instr), "no new HPKE context is set up for a retried hello (the stored context, hence the next sequence number, is used)")
 	}
 	// the stored outer hello that the comparison uses is the first flight's: c.outer is stored only by NewConn
 	for i, st := range fieldStores(p, pkg, m.fConn["outer"]) {
-		r.Check("C06.M4", fmt.Sprintf("outer:store#%d", i), core.Root(st.Parent()) == m.newConn, p.InstrPos(st), "c.outer is the first hello (stored by NewConn only)")
+		r.Check(pre+".M4", fmt.Sprintf("outer:store#%d", i), core.Root(st.Parent()) == m.newConn, p.InstrPos(st), "c.outer is the first hello (stored by NewConn only)")
 	}
-	r.Floor("C06.M4", 7)
+	r.Floor(pre+".M4", 7)
 
 	// --- M5: handler under isRetry
 	hview := assumeParam(m.handle, m.handle.Params[2], true)
@@ -252,21 +259,21 @@ func c06Rules(p *core.Prog, r *core.Run) {
 				}
 			}
 		}
-		r.Check("C06.M5", "handle:retry-success", nn && ext && sni && alpn, p.InstrPos(ret), "a retried hello is accepted only if it decrypted (inner != nil: %v), carries the inner ECH extension (%v), keeps the first inner server name (%v) and the first inner ALPN list (%v)", nn, ext, sni, alpn)
+		r.Check(pre+".M5", "handle:retry-success", nn && ext && sni && alpn, p.InstrPos(ret), "a retried hello is accepted only if it decrypted (inner != nil: %v), carries the inner ECH extension (%v), keeps the first inner server name (%v) and the first inner ALPN list (%v)", nn, ext, sni, alpn)
 		// and what it returns as inner is the processor's result
-		r.Check("C06.M5", "handle:retry-returns-inner", len(ret.Results) == 3 && isProc0(p.X(ret.Results[1])), p.InstrPos(ret), "the hello handed back is the reconstructed inner hello of this record")
+		r.Check(pre+".M5", "handle:retry-returns-inner", len(ret.Results) == 3 && isProc0(p.X(ret.Results[1])), p.InstrPos(ret), "the hello handed back is the reconstructed inner hello of this record")
 	}
 	hOK := func(ret *ssa.Return) bool { return lastResultNil(ret) }
 	hRetry := boolAssume("isRetry", true, func(e *core.Expr) bool { return e.Val == ssa.Value(m.handle.Params[2]) }).asContext()
-	abortUnder(p, r, "C06.M5", "handle:retry-not-decrypted", m.handle, []assumption{hRetry, cmpAssume("inner == nil", "==", isProc0, isConstName("nil"))}, "ech.ErrIllegalParameter", hOK)
-	abortUnder(p, r, "C06.M5", "handle:retry-sni-changed", m.handle, []assumption{hRetry, cmpAssume("c.inner.ServerName != inner.ServerName", "!=",
+	abortUnder(p, r, pre+".M5", "handle:retry-not-decrypted", m.handle, []assumption{hRetry, cmpAssume("inner == nil", "==", isProc0, isConstName("nil"))}, "ech.ErrIllegalParameter", hOK)
+	abortUnder(p, r, pre+".M5", "handle:retry-sni-changed", m.handle, []assumption{hRetry, cmpAssume("c.inner.ServerName != inner.ServerName", "!=",
 		func(e *core.Expr) bool { return e.Op == "field" && e.Obj == m.fCH["ServerName"] && e.Args[0].Op == "field" && e.Args[0].Obj == m.fConn["inner"] },
 		func(e *core.Expr) bool { return e.Op == "field" && e.Obj == m.fCH["ServerName"] && isProc0(e.Args[0]) })}, "ech.ErrIllegalParameter", hOK)
-	abortUnder(p, r, "C06.M5", "handle:retry-alpn-changed", m.handle, []assumption{hRetry, boolAssume("slices.Equal(c.inner.ALPNProtos, inner.ALPNProtos)", false,
+	abortUnder(p, r, pre+".M5", "handle:retry-alpn-changed", m.handle, []assumption{hRetry, boolAssume("slices.Equal(c.inner.ALPNProtos, inner.ALPNProtos)", false,
 		func(e *core.Expr) bool { return e.Op == "call" && e.Name == "slices.Equal" })}, "ech.ErrIllegalParameter", hOK)
 	// c.inner is the first flight's inner hello
 	for i, st := range fieldStores(p, pkg, m.fConn["inner"]) {
-		r.Check("C06.M5", fmt.Sprintf("inner:store#%d", i), core.Root(st.Parent()) == m.newConn, p.InstrPos(st), "c.inner is the first hello's inner (stored by NewConn only)")
+		r.Check(pre+".M5", fmt.Sprintf("inner:store#%d", i), core.Root(st.Parent()) == m.newConn, p.InstrPos(st), "c.inner is the first hello's inner (stored by NewConn only)")
 	}
 	// Read replaces the record by the marshalled inner hello of the retry
 	okRepl := false
@@ -280,18 +287,18 @@ func c06Rules(p *core.Prog, r *core.Run) {
 			}
 		}
 	}
-	r.Check("C06.M5", "Read:replace-by-inner", okRepl, p.Pos(m.read.Pos()), "the retried record is replaced by Marshal() of the inner hello the handler returned")
-	r.Floor("C06.M5", 7)
+	r.Check(pre+".M5", "Read:replace-by-inner", okRepl, p.Pos(m.read.Pos()), "the retried record is replaced by Marshal() of the inner hello the handler returned")
+	r.Floor(pre+".M5", 7)
 
 	// --- M6
-	c04AlertDeliver(p, r, m, "C06.M6")
+	c04AlertDeliver(p, r, m, pre+".M6")
 }
 
 // c06HRR checks IsHelloRetryRequest and the magic value (RFC 8446 4.1.3).
-func c06HRR(p *core.Prog, r *core.Run) {
+func c06HRR(p *core.Prog, r *core.Run, rule string) {
 	fn := p.Func(Ech, "(serverHello).IsHelloRetryRequest")
 	if fn == nil {
-		r.Undecided("C06.M1", "IsHelloRetryRequest", "-", "method not found")
+		r.Undecided(rule, "IsHelloRetryRequest", "-", "method not found")
 		return
 	}
 	ok := false
@@ -304,8 +311,8 @@ func c06HRR(p *core.Prog, r *core.Run) {
 			}
 		}
 	}
-	r.Check("C06.M1", "IsHelloRetryRequest:body", ok, p.Pos(fn.Pos()), "IsHelloRetryRequest compares the ServerHello random with the helloRetryRequest table")
+	r.Check(rule, "IsHelloRetryRequest:body", ok, p.Pos(fn.Pos()), "IsHelloRetryRequest compares the ServerHello random with the helloRetryRequest table")
 	got := globalBytes(p, Ech, "helloRetryRequest")
 	want := "cf21ad74e59a6111be1d8c021e65b891c2a211167abb8c5e079e09e2c8a8339c"
-	r.Check("C06.M1", "helloRetryRequest:value", got == want, p.Pos(fn.Pos()), "the table equals the RFC 8446 4.1.3 HelloRetryRequest random (got %s)", got)
+	r.Check(rule, "helloRetryRequest:value", got == want, p.Pos(fn.Pos()), "the table equals the RFC 8446 4.1.3 HelloRetryRequest random (got %s)", got)
 }
